@@ -237,6 +237,22 @@ let route_v = function
       let (((r0, r1), r2), r3) = mul_generic (limbs_of (z_of_dec a)) (limbs_of (z_of_dec b)) in zlist [r0; r1; r2; r3]
   | ["part"; c; s] -> let (ps, k) = partition_scalars (z_of_dec c) [z_of_dec s] in zlist (ps @ [k])
   | ["tr"; lbl; sc] -> zlist (c_transcript_run (bytes_of_hex lbl) [TScalar (z_of_dec sc, [ZZ.of_int 115]); TChallenge [ZZ.of_int 99]])
+  | ["sqrt"; v] -> (match sqrt_precomp (mkfp (z_of_dec v)) with Some y -> zlist [ZZ.one; y] | None -> zlist [ZZ.zero])
+  | ["bwadd"; a; b; c; d; e; f] ->
+      let ((x, y), z) = bw_add ((mkfp (z_of_dec a), mkfp (z_of_dec b)), mkfp (z_of_dec c))
+                               ((mkfp (z_of_dec d), mkfp (z_of_dec e)), mkfp (z_of_dec f)) in zlist [x; y; z]
+  | ["bwbytes"; a; b; c] ->
+      let p = ((mkfp (z_of_dec a), mkfp (z_of_dec b)), mkfp (z_of_dec c)) in zlist (bw_bytes p @ [bw_map_to_scalar p])
+  | ["bweq"; a; b; c; d; e; f] ->
+      zlist [if bw_equal ((mkfp (z_of_dec a), mkfp (z_of_dec b)), mkfp (z_of_dec c))
+                         ((mkfp (z_of_dec d), mkfp (z_of_dec e)), mkfp (z_of_dec f)) then ZZ.one else ZZ.zero]
+  | ["bwdec"; h] -> (match bw_set_bytes (bytes_of_hex h) false with
+                     | Inl ((x, y), z) -> zlist [ZZ.one; x; y; z] | Inr _ -> zlist [ZZ.zero])
+  | ["bwsmul"; s; a; b; c] ->
+      zlist (bw_bytes (bw_smul (mkfr (z_of_dec s)) ((mkfp (z_of_dec a), mkfp (z_of_dec b)), mkfp (z_of_dec c))))
+  | ["bwdbl"; a; b; c] ->
+      let p = ((mkfp (z_of_dec a), mkfp (z_of_dec b)), mkfp (z_of_dec c)) in
+      let ((x, y), z) = bw_double p in zlist ([x; y; z] @ [if bw_is_on_curve p then ZZ.one else ZZ.zero])
   | _ -> failwith "bad rv op"
 
 let handle toks =
